@@ -200,6 +200,86 @@ func vC05RRSIG(owner string, covered uint16, ttl uint32) dns.RR {
 	}
 }
 
+// the rich universe: one RRset per record type, in presentation form.  Shapes on purpose: several records per
+// set; RDATA names inside the zone (the packer compresses them against the question), outside it and sharing a
+// suffix with one another (compressed against an EARLIER RDATA of the same section for the RFC 1035 types, left
+// uncompressed for the later types), the root; DNSSEC record types as the payload of a question.
+var vC05RichRData = map[uint16][]string{
+	dns.TypeNS:         {"NS ns1.zero.test.", "NS ns2.zero.test.", "NS ns.isp.example.", "NS ns.backup.isp.example."},
+	dns.TypePTR:        {"PTR host-a.isp.example.", "PTR host-b.isp.example.", "PTR host-c.zero.test."},
+	dns.TypeMX:         {"MX 10 mail.zero.test.", "MX 20 mail.backup.example.", "MX 30 mx.backup.example."},
+	dns.TypeSRV:        {"SRV 0 5 5060 sip-a.isp.example.", "SRV 1 5 5060 sip-b.isp.example.", "SRV 2 0 5061 sip.zero.test."},
+	dns.TypeSVCB:       {`SVCB 1 svc-a.isp.example. alpn="h2,h3" port="8443"`, `SVCB 2 svc-b.isp.example. ipv4hint="192.0.2.1"`, "SVCB 3 svc.zero.test."},
+	dns.TypeHTTPS:      {`HTTPS 1 . alpn="h2,h3" ipv4hint="192.0.2.7" ipv6hint="2001:db8::7"`, `HTTPS 2 web.isp.example. port="8443"`},
+	dns.TypeNAPTR:      {`NAPTR 100 10 "u" "E2U+sip" "!^.*$!sip:info@example.com!" .`, `NAPTR 100 20 "s" "SIP+D2U" "" _sip._udp.isp.example.`, `NAPTR 100 30 "s" "SIP+D2T" "" _sip._tcp.zero.test.`},
+	dns.TypeCAA:        {`CAA 0 issue "ca.example.net"`, `CAA 128 iodef "mailto:sec@zero.test"`},
+	dns.TypeTLSA:       {"TLSA 3 1 1 0123456789abcdef0123456789abcdef0123456789abcdef0123456789abcdef"},
+	dns.TypeDS:         {"DS 12345 8 2 0123456789abcdef0123456789abcdef0123456789abcdef0123456789abcdef", "DS 12346 13 2 fedcba9876543210fedcba9876543210fedcba9876543210fedcba9876543210"},
+	dns.TypeDNSKEY:     {"DNSKEY 257 3 8 AwEAAaetidLzsKWUt4swWR8yu0wPHPiUi8LUsAD0QPWU+wzt89epO6tHzkMBVDkC7qphQO2hTY4hHn9npWFRw5BYubE=", "DNSKEY 256 3 8 AwEAAcw5QLr0IjC0wKbGoBPQv4qmeqHy9mvL5qGQTuaG5TSrNqEAR6b/qvxDx6my4JmEmjUPA1JeEI9YfTUieMr2UZk="},
+	dns.TypeNSEC:       {"NSEC rsz.zero.test. A NS MX TXT RRSIG NSEC"},
+	dns.TypeNSEC3:      {"NSEC3 1 0 5 aabbccdd 2vptu5timamqttgl4luu9kg21e0aor3s A RRSIG"},
+	dns.TypeNSEC3PARAM: {"NSEC3PARAM 1 0 5 aabbccdd"},
+	dns.TypeRRSIG:      {"RRSIG A 8 3 300 20330518033227 20200913054000 12345 zero.test. MEQCIF5edm5vY2Vhbm9ncmFwaHkgaXMgZnVuIQIgTm90QVJlYWxTaWc=", "RRSIG MX 8 3 300 20330518033227 20200913054000 12345 zero.test. MEQCIF5edm5vY2Vhbm9ncmFwaHkgaXMgZnVuIQIgTm90QVJlYWxTaWc="},
+	dns.TypeSOA:        {"SOA ns.zero.test. host.zero.test. 7 3600 600 86400 60"},
+	dns.TypeHINFO:      {`HINFO "PDP-11" "UNIX"`},
+	dns.TypeRP:         {"RP admin.zero.test. txt.isp.example.", "RP ops.isp.example. txt.isp.example."},
+	dns.TypeKX:         {"KX 10 kx.zero.test.", "KX 20 kx.isp.example."},
+	dns.TypeURI:        {`URI 10 1 "https://www.isp.example/path"`},
+	dns.TypeLOC:        {"LOC 52 22 23.000 N 4 53 32.000 E -2.00m 0.00m 10000m 10m"},
+	dns.TypeSSHFP:      {"SSHFP 4 2 0123456789abcdef0123456789abcdef0123456789abcdef0123456789abcdef"},
+	dns.TypeCDS:        {"CDS 12345 8 2 0123456789abcdef0123456789abcdef0123456789abcdef0123456789abcdef"},
+	dns.TypeA:          {"A 192.0.2.61", "A 192.0.2.62"},
+	dns.TypeAAAA:       {"AAAA 2001:db8::61"},
+	dns.TypeTXT:        {`TXT "v=spf1 -all"`, `TXT "rich" "universe"`},
+}
+
+// the types of the rich universe in a fixed order (generators draw from it)
+var vC05RichTypes = func() []int {
+	var out []int
+	for t := range vC05RichRData {
+		out = append(out, int(t))
+	}
+	sort.Ints(out)
+	return out
+}()
+
+var vC05RichParsed = map[uint16][]dns.RR{}
+var vC05RichMu sync.Mutex
+
+// vC05Rich returns the RRset of the given type at owner, nil for a type outside the table.
+func vC05Rich(owner string, qtype uint16, ttl uint32) []dns.RR {
+	vC05RichMu.Lock()
+	defer vC05RichMu.Unlock()
+	tmpl, ok := vC05RichParsed[qtype]
+	if !ok {
+		for _, line := range vC05RichRData[qtype] {
+			rr, err := dns.NewRR("x.zero.test. 300 IN " + line)
+			if err != nil || rr == nil {
+				panic(fmt.Sprintf("vC05Rich: %q: %v", line, err))
+			}
+			tmpl = append(tmpl, rr)
+		}
+		vC05RichParsed[qtype] = tmpl
+	}
+	var out []dns.RR
+	for _, rr := range tmpl {
+		c := dns.Copy(rr)
+		c.Header().Name = owner
+		c.Header().Ttl = ttl
+		out = append(out, c)
+	}
+	return out
+}
+
+func vC05IsRichName(name string) bool {
+	for _, p := range []string{"rr", "rs", "ra", "rb", "rt"} {
+		if strings.HasPrefix(name, p) {
+			return true
+		}
+	}
+	return false
+}
+
 const vC05Zone = "zero.test."
 
 // names at or below nx1.zero.test. get a signed NXDOMAIN which the stub, standing in for the
@@ -354,6 +434,36 @@ func vC05Respond(req *dns.Msg, epoch int) *dns.Msg {
 			for i := 0; i < 90; i++ {
 				resp.Answer = append(resp.Answer, vC05A(q.Name, ttl, byte(i)))
 			}
+		}
+	case "rr", "rs": // rich universe: the RRset of the asked type for every type of vC05RichTypes; rs* is signed
+		signed := kind == "rs"
+		if signed {
+			resp.AuthenticatedData = secure && !req.CheckingDisabled
+		}
+		if rrs := vC05Rich(q.Name, q.Qtype, ttl); rrs != nil {
+			resp.Answer = rrs
+			if signed && q.Qtype != dns.TypeRRSIG {
+				resp.Answer = append(resp.Answer, vC05RRSIG(q.Name, q.Qtype, ttl))
+			}
+		} else if signed {
+			resp.Ns = []dns.RR{vC05SOA(vC05Zone, ttl), vC05RRSIG(vC05Zone, dns.TypeSOA, ttl),
+				&dns.NSEC{Hdr: dns.RR_Header{Name: q.Name, Rrtype: dns.TypeNSEC, Class: dns.ClassINET, Ttl: 60}, NextDomain: "rsz." + vC05Zone, TypeBitMap: []uint16{dns.TypeA, dns.TypeRRSIG, dns.TypeNSEC}},
+				vC05RRSIG(q.Name, dns.TypeNSEC, 60)}
+		} else {
+			nodata()
+		}
+	case "ra", "ralong", "rb", "rt": // aliases into the rich universe; owner and target differ in length for ralong/rb
+		// (every offset of a composed reply then differs from the hop's stored body); rt* is signed -> rs*
+		digits := first[len(kind):]
+		target := map[string]string{"ra": "rr", "ralong": "rr", "rb": "ralong", "rt": "rs"}[kind] + digits + "." + vC05Zone
+		if q.Qtype == dns.TypeNSEC || q.Qtype == dns.TypeRRSIG {
+			nodata() // types that live AT an alias owner are not answered through it
+			break
+		}
+		resp.Answer = []dns.RR{vC05CNAME(q.Name, target, ttl)}
+		if kind == "rt" {
+			resp.AuthenticatedData = secure && !req.CheckingDisabled
+			resp.Answer = append(resp.Answer, vC05RRSIG(q.Name, dns.TypeCNAME, ttl))
 		}
 	case "sf", "nxf": // nxf* sorts inside the span the nx1 denial proof covers
 		resp.Rcode = dns.RcodeServerFailure
@@ -872,6 +982,7 @@ func vC05Opt(code int, data []byte) []byte {
 var vC05Names = []string{
 	"pos0", "pos1", "pos2", "mx0", "ca0", "ca1", "ca2", "ca3", "ca4", "cb0", "cc0", "cf0", "cf1", "sig0", "sig1", "sig2", "sc0", "sc1",
 	"nx0", "nx1", "a.nx0", "a.nx1", "b.a.nx1", "nd0", "nd1", "ede0", "ede1", "big0", "big1", "sf0", "sf1", "a.sf0", "nxf0", "nxf1", "ref0", "hosts0", "hosts1", "zz0",
+	"rr0", "rr1", "rr2", "rs0", "rs1", "rs2", "ra0", "ra2", "ralong0", "ralong1", "ralong2", "rb0", "rt0", "rt1", "rt2",
 }
 
 const vC05Secret = "6c6f6f6b61686172646c6f6f6b6168617264"
@@ -903,6 +1014,9 @@ func (g *vC05Gen) query(ip net.IP) *vC05Query {
 		q.qtype = g.pick(1, 1, 1, 1, 1, 28, 28, 15, 16, 5, 46, 255, 43, 2, 6, 12, 65, 65000)
 		if strings.HasSuffix(q.name, "arpa.") {
 			q.qtype = g.pick(12, 12, 12, 6, 2, 1, 43, 255, 16)
+		}
+		if vC05IsRichName(q.name) && g.r.Intn(8) > 0 {
+			q.qtype = vC05RichTypes[g.r.Intn(len(vC05RichTypes))]
 		}
 	}
 	// name shapes: extra labels in front of any name - deep (label-count boundaries of the
@@ -1991,6 +2105,34 @@ func TestVerifC05Differential(t *testing.T) {
 		}
 		add2(vC05Toggles{emptyZones: ez, hosts: true}, steps...)
 	}
+	// record types: every type of the rich universe x {exact hit, alias chain of one and of two hops composed from
+	// warm entries} x {DO, no DO, no OPT}, unsigned and signed; the hop's owner and the alias differ in length and
+	// the alias records sit in front, so a pointer copied verbatim out of a hop's stored body points elsewhere in
+	// the composed reply.  Quick tier: single pass for the unsigned and inline+replay for the signed family;
+	// thorough tier: both serve modes x UDP/TCP for each.
+	{
+		types := append([]int{}, vC05RichTypes...)
+		modes := []vC05Toggles{{}, {inline: true}}
+		if os.Getenv("VERIF_TIER") == "thorough" {
+			modes = []vC05Toggles{{}, {inline: true}, {tcp: true}, {tcp: true, inline: true}}
+		}
+		for mi, tg := range modes {
+			var plain, signed []vC05Step
+			for _, qt := range types {
+				plain = append(plain, pk("rr0", qt, 0x0100, false, true, 1232), pk("rr0", qt, 0x0100, false, true, 1232), pk("rr0", qt, 0x0100, true, true, 1232), pk("rr0", qt, 0x0100, false, false, 0),
+					pk("ralong0", qt, 0x0100, false, true, 1232), pk("ralong0", qt, 0x0100, false, true, 1232), pk("ralong0", qt, 0x0100, true, true, 4096),
+					pk("rb0", qt, 0x0100, false, true, 1232), pk("rb0", qt, 0x0100, false, false, 0))
+				signed = append(signed, pk("rs0", qt, 0x0100, true, true, 1232), pk("rs0", qt, 0x0100, true, true, 1232), pk("rs0", qt, 0x0100, false, true, 1232), pk("rs0", qt, 0x0100, false, false, 0), pk("rs0", qt, 0x0110, true, true, 1232),
+					pk("rt0", qt, 0x0100, true, true, 1232), pk("rt0", qt, 0x0100, true, true, 1232), pk("rt0", qt, 0x0100, false, true, 1232), pk("rt0", qt, 0x0120, false, false, 0))
+			}
+			if len(modes) > 2 || mi == 0 {
+				add2(tg, plain...)
+			}
+			if len(modes) > 2 || mi == 1 {
+				add2(tg, signed...)
+			}
+		}
+	}
 	nScripted := len(scriptedSteps)
 	for budget > 0 {
 		scen++
@@ -2022,7 +2164,11 @@ func TestVerifC05Differential(t *testing.T) {
 			{"pos0", "pos1"}, {"ca0", "cb0", "cc0", "pos0"}, {"ca1", "pos2"}, {"sc1", "sig2"}, {"sc1", "sig2", "sig0"}, {"ca4", "big0"}, {"big0", "big1"}, {"ca2", "nx0"}, {"ca3", "sf0"}, {"cf0"},
 			{"sig0", "sc0"}, {"sig1"}, {"nx0", "a.nx0"}, {"nx1", "a.nx1", "b.a.nx1"}, {"nd0"}, {"ede0"}, {"big0"}, {"big1"},
 			{"sf0", "a.sf0"}, {"sf1"}, {"nxf0", "nx1"}, {"nxf0", "nx1", "nxf1"}, {"mx0"}, {"hosts0"}, {"ref0"}, {"nd1", "ede1"},
+			{"rr0", "ralong0", "rb0"}, {"rr2", "ralong2", "ra2"}, {"rs0", "rt0"}, {"rs1", "rt1"}, {"rs2", "rt2"}, {"rr1", "ralong1"}, {"rs0"}, {"rr0", "ra0"},
 		}
+		// a history over the rich universe concentrates on a few record types, so that the same (name, type)
+		// is asked again and the alias chain onto it is warm
+		richQt := []int{vC05RichTypes[g.r.Intn(len(vC05RichTypes))], vC05RichTypes[g.r.Intn(len(vC05RichTypes))], vC05RichTypes[g.r.Intn(len(vC05RichTypes))]}
 		focus := []string{}
 		for i := 0; i < 2+g.r.Intn(2); i++ {
 			focus = append(focus, families[g.r.Intn(len(families))]...)
@@ -2055,6 +2201,9 @@ func TestVerifC05Differential(t *testing.T) {
 				if g.r.Intn(5) > 0 {
 					q.qtype = g.pick(1, 1, 1, 1, 1, 1, 28, 16, 15)
 				}
+				if vC05IsRichName(q.name) && g.r.Intn(10) > 0 {
+					q.qtype = richQt[g.r.Intn(len(richQt))]
+				}
 			}
 			if strings.HasPrefix(q.name, "big") || strings.HasPrefix(q.name, "ca4") {
 				// oversized answers: the advertised size decides between a byte serve and truncation
@@ -2063,7 +2212,8 @@ func TestVerifC05Differential(t *testing.T) {
 					q.opt = g.r.Intn(4) > 0
 				}
 			}
-			if strings.HasPrefix(q.name, "sig") || strings.HasPrefix(q.name, "sc") || strings.HasPrefix(q.name, "nx1") {
+			if strings.HasPrefix(q.name, "sig") || strings.HasPrefix(q.name, "sc") || strings.HasPrefix(q.name, "nx1") || strings.HasPrefix(q.name, "rs") || strings.HasPrefix(q.name, "rt") ||
+				(vC05IsRichName(q.name) && (q.qtype == 46 || q.qtype == 47 || q.qtype == 50 || q.qtype == 43 || q.qtype == 48)) {
 				// signed material: every AD/CD/DO combination matters
 				q.flags = g.pick(0x0100, 0x0100, 0x0110, 0x0120, 0x0130)
 				if q.opt {
@@ -2089,6 +2239,14 @@ func TestVerifC05Differential(t *testing.T) {
 			}{{false, 0x0100, 1}, {true, 0x0100, 1}, {true, 0x0110, 1}, {false, 0x0100, 28}} {
 				q := &vC05Query{id: 4242, name: nm + "." + vC05Zone, qtype: v.qt, qclass: 1, flags: v.flags, opt: true, size: 4096, do: v.do}
 				steps = append(steps, vC05Step{raw: q.pack(nil), tag: "probe " + q.name, ip: net.IPv4(203, 0, 113, byte(100+len(steps)%100)), probe: true})
+			}
+		}
+		for _, nm := range focus {
+			if vC05IsRichName(nm) {
+				for _, do := range []bool{false, true} {
+					q := &vC05Query{id: 4243, name: nm + "." + vC05Zone, qtype: richQt[0], qclass: 1, flags: 0x0100, opt: true, size: 4096, do: do}
+					steps = append(steps, vC05Step{raw: q.pack(nil), tag: "probe " + q.name, ip: net.IPv4(203, 0, 113, byte(100+len(steps)%100)), probe: true})
+				}
 			}
 		}
 		if scen <= nScripted {
